@@ -1,4 +1,5 @@
 import Driver.Common
+import Driver.CertShow
 import Rpki.Model.Manifest
 import Rpki.Model.Crl
 import Rpki.Model.Roa
@@ -212,6 +213,23 @@ def handle (toks : List String) (impl : String) : Verdict :=
   | some v => v
   | none =>
   match toks with
+  | "bytes" :: kind :: _ =>
+    -- the object a builder produced: the library decoder's reading of it (second half of the result) must be the
+    -- Lean decoder model's reading of the same octets
+    match impl.splitOn " | " with
+    | h :: rest =>
+      let lib := " | ".intercalate rest
+      match hexB h with
+      | none => if impl = "nothing-built" then {} else badOp "hex"
+      | some b =>
+        let m := if kind = "cert" then Driver.CertShow.certLine b
+          else if kind = "crl" then Driver.CertShow.crlLine b
+          else if kind = "idcert" then Driver.CertShow.idcLine b
+          else if kind = "sigmsg" then Driver.CertShow.smsgLine b
+          else Driver.CertShow.cmsLine kind b
+        { mismatch := if m = lib then none else some m,
+          oracle := if lib = "panic" then some "decoding a library-built object panicked" else none }
+    | [] => badOp "result"
   | ["crlx", entries, probes] => handleCrl entries probes impl
   | op :: _ =>
     let r := impl.splitOn " "
